@@ -482,6 +482,18 @@ def check_c09p(trace, res: Result, hs: Hasher):
         res.probes["program with a data cache compared across modes"] += 1
 
 
+def _icache_residency(im):
+    """{set index: frozenset of valid tags} of an InstructionMemoryCacheSystem (white-box, no side effects)."""
+    return {
+        k: frozenset(b.decoded_address.tag for b in st.blocks if b.valid_bit)
+        for k, st in enumerate(im.cache.sets)
+    }
+
+
+def _ref_residency(ref, nsets):
+    return {k: frozenset(t for t in ref.sets[k].tags if t is not None) for k in range(nsets)}
+
+
 # ---------------------------------------------------------------------------
 # C11 (program clause): instruction cache transparent, fetch accounting
 
@@ -526,6 +538,13 @@ def check_c11p(trace, res: Result, hs: Hasher):
         return
     if (im.hits, bool(im.last_was_hit)) != (refc.hits, bool(refc.last)) and state["fetches"]:
         res.violate("C11", "hit-count", expected=[refc.hits, refc.last], got=[im.hits, im.last_was_hit], mode="single")
+        return
+    # which blocks are resident decides every later hit: a different resident set means that some
+    # continuation of this fetch stream gets a different hit count than the reference cache
+    if _icache_residency(im) != _ref_residency(refc, 1 << ic["ib"]):
+        res.violate("C11", "resident-blocks-differ-from-reference-cache", mode="single",
+                    expected={k: sorted(v) for k, v in _ref_residency(refc, 1 << ic["ib"]).items()},
+                    got={k: sorted(v) for k, v in _icache_residency(im).items()})
         return
     want_cycles = n + (1 if cached["exc"] else 0)
     dmiss = 0
@@ -588,6 +607,11 @@ def check_c11p(trace, res: Result, hs: Hasher):
         return
     if im5.hits != ref5.hits:
         res.violate("C11", "hit-count", expected=ref5.hits, got=im5.hits, mode="five", fetches=st5["fetches"])
+        return
+    if _icache_residency(im5) != _ref_residency(ref5, 1 << ic["ib"]):
+        res.violate("C11", "resident-blocks-differ-from-reference-cache", mode="five",
+                    expected={k: sorted(v) for k, v in _ref_residency(ref5, 1 << ic["ib"]).items()},
+                    got={k: sorted(v) for k, v in _icache_residency(im5).items()})
         return
     # (3) penalty identity per tick
     dpen = dc["pen"] if dc else 0
